@@ -36,7 +36,7 @@ func init() {
 	addProp(&PropSpec{
 		ID: "C12",
 		Explanation: "Four harnesses over the real channel code with the real bufio.Reader (16-byte buffer) executed from source. (a) split.Recv on an arbitrary byte stream (all bytes symbolic) against the reference 'records are the terminated lines; a cut-off tail is reported whole with an error; then it keeps failing', under symbolic chunking and EOF-with-data. " +
-			"(b) hdr/opthdr.Recv on a stream generated from a symbolic grammar (optional Content-Type line matching or not, optional unknown field or non-header line, Content-Length line with case variants, optional white space and an arbitrary 0..2-byte value, CRLF/LF, blank line present or missing, body bytes symbolic) against a reference decoder written from the package documentation (strconv.Atoi is modelled exactly for short digit strings). (c) arbitrary short raw streams through hdr.Recv: errors only, no panic. " +
+			"(b) hdr/opthdr.Recv on a stream generated from a symbolic grammar (optional Content-Type line matching or not, optional unknown field or non-header line, Content-Length line with case variants, optional white space and an arbitrary 0..2-byte value, CRLF/LF, blank line present or missing, the stream optionally ending inside the last header line, body bytes symbolic; plus a list of spellings other number syntaxes accept: 0x1 0X2 0b1 0o2 1_0 010 1e1 1.0 +-1 0x) against a reference decoder written from the package documentation (strconv.Atoi is modelled exactly for short digit strings). (c) arbitrary short raw streams through hdr.Recv: errors only, no panic. " +
 			"(d) Header-framing Recv with the Content-Length value an arbitrary non-negative 64-bit int " +
 			"(decimal text kept as an opaque integer token; strconv.Atoi is its inverse) and three classes of previous receive-buffer length; " +
 			"the makeslice length/capacity check of the Go runtime is an explicit path obligation, so an overflowing size*2 is found by the solver.",
@@ -61,12 +61,12 @@ func registerMore() {
 	registerMore2()
 	addProp(&PropSpec{
 		ID: "C02",
-		Explanation: "One inbound record (a single member; thorough: also arrays of 1..2 members) is generated from symbolic choices - any subset of the keys jsonrpc/id/method/params/error/result/unknown, each value an opaque JSON token of symbolic kind - " +
+		Explanation: "One inbound record (a single member; an array of two members from representative classes; thorough: also one-member arrays of the full generator) is generated from symbolic choices - any subset of the keys jsonrpc/id/method/params/error/result/unknown, each value an opaque JSON token of symbolic kind - " +
 			"and pushed through the real jmessages.parseJSON, filterBatchLocked, dispatchLocked closure (checkAndAssignLocked, invoke, tasks.responses, deliver, encode). The reply bytes are parsed back and compared with a reference classifier written from the JSON-RPC 2.0 spec and the README. " +
 			"Token kinds, first bytes, ids and error codes stay symbolic, so each path is decided for all values; map iteration order of the member parser is explored exhaustively for members with <= 3 keys.",
 		Bounds: []string{"quick: single non-batch member; value classes: version {2.0, other string, non-string}, method {ok, nosuch, rpc.other, empty, non-string, null}, error {object, non-object}, unknown key only with request fields",
-			"thorough: all classes (adds null version/error, failing handler, rpc.serverInfo), arrays of 1..2 members", "all map iteration orders for <= 3 present keys (thorough: <= 4), one fixed order otherwise",
-			"ids of members of one batch pairwise different (duplicates: C07)", "one unknown key stands for any number"},
+			"thorough: all classes (adds null version/error, failing handler, rpc.serverInfo), also as one-member arrays; two-member arrays use nine representative member classes each (the full generator squared did not finish in 25 minutes)", "all map iteration orders for <= 3 present keys (thorough: <= 4), one fixed order otherwise",
+			"ids of members of one batch pairwise different (duplicates: C07)", "one unknown key stands for any number", "envelope harness (started server): undecodable record, empty array, array holding a non-object, bare scalar; a call / one-call batch / empty array surrounded by 0..2 symbolic white-space bytes on each side; an undeliverable notification alone or in a batch of notifications; then a liveness probe"},
 		Outside:     []string{"random and mutated records beyond the bound (sampling is not done)", "duplicate keys inside one object (resolved by encoding/json)"},
 		Assumptions: append([]string{jsonAssumption, "reply-shaped member = carries a result or a well-formed error object and no method name (method absent, null, empty or not a string)"}, commonAssumptions...),
 		Harnesses: []HarnessSpec{
@@ -74,15 +74,17 @@ func registerMore() {
 			{Dir: "jrpc2", Name: "Harness_selftest_wire", Reach: []string{"selftest-done", "selftest-broken-json"}, Tweak: delays(0, 1),
 				Bounds: map[string]string{"purpose": "engine validation: the inputs and expected replies of the repository's own TestServer_nonLibraryClient table (19 rows + 2 broken records) run through the engine; a mismatch makes the check inconclusive"}},
 			{Dir: "jrpc2", Name: "Harness_C02_envelope", Reach: []string{"answered", "alive", "padded", "undeliverable-notification"}},
+			{Dir: "jrpc2", Name: "Harness_C02_pairs", Reach: []string{"batch-reply"},
+				Bounds: map[string]string{"purpose": "arrays of two members, each from nine representative classes (call, notification, unknown / reserved method, wrong version, no id and no method name, result reply, error reply, non-object) with symbolic ids, params, results and codes"}},
 			{Dir: "jrpc2", Name: "Harness_C02_batch", Reach: []string{"batch-reply"}, ThoroughOnly: true},
 		},
 	})
 	addProp(&PropSpec{
 		ID: "C03",
-		Explanation: "A real started Server (reader, dispatcher, per-batch and handler goroutines as engine threads) over an instrumented channel receives two (thorough: up to three) records whose members are symbolically notifications or calls; every handler blocks on a gate, an environment thread opens the notification gates in a symbolic order, calls stay gated. " +
+		Explanation: "A real started Server (reader, dispatcher, per-batch and handler goroutines as engine threads) over an instrumented channel receives two records whose members are symbolically notifications or calls; every handler blocks on a gate, an environment thread opens the notification gates in a symbolic order, calls stay gated. " +
 			"Scheduling decisions at blocking points are explored up to the delay bound. Checked at quiescence: a notification of an earlier record has exited before any handler of a later record is entered; gated calls do not hold up later arrivals below the concurrency limit; handler count <= Concurrency; each handler ran exactly once.",
-		Bounds: []string{"records: 2; members per record: 1..2 (quick: second record 1)", "Concurrency 2 (thorough {1,2})", "thorough: a concurrent CancelRequest of one call or a (refused) push while dispatch is going on", "delay-bounded scheduler: <= 2 deviations from the deterministic lowest-thread-first order; context switches only at blocking operations (preemption bound 0)", "<= 9 threads"},
-		Outside:     []string{"schedules needing more delays or a preemption inside a critical section", "three or more records in flight (a 3-record configuration exceeded the thorough time budget)", "concurrent Stop during dispatch (C08 harness)"},
+		Bounds: []string{"records: 2; first record 1..2 members, second record 1 member", "Concurrency 2 (thorough {1,2})", "thorough: a concurrent CancelRequest of one call or a (refused) push while dispatch is going on", "delay-bounded scheduler: <= 2 (thorough <= 3) deviations from the deterministic lowest-thread-first order; context switches only at blocking operations (preemption bound 0)", "<= 12 threads", "stop with notifications still queued: the C08 harness (1..4 notifications, delay bound 1, thorough 2)"},
+		Outside:     []string{"schedules needing more delays or a preemption inside a critical section", "three or more records in flight, and two-member second records together with concurrent activity (both exceeded a 30-minute budget at delay bound 2)"},
 		Assumptions: append([]string{jsonAssumption, "sync.Mutex/WaitGroup, channels, select and context are engine intrinsics; x/sync/semaphore and mds/queue are executed from source"}, commonAssumptions...),
 		Harnesses: []HarnessSpec{
 			{Dir: "jrpc2", Name: "Harness_C03_order", Reach: []string{"quiescent", "ordered-pair", "done"}, Tweak: delays(2, 3)},
@@ -92,10 +94,10 @@ func registerMore() {
 	})
 	addProp(&PropSpec{
 		ID: "C14",
-		Explanation: "Handler errors are built from every constructor (Error with any int32 code / symbolic message / optional data token, Code.Err, Errorf, value- and pointer-receiver ErrCoder types, context sentinels, plain errors), wrapped 0..2 (thorough 0..3) times with %w, and pushed through the real tasks.responses, jmessages.toJSON, parseJSON, Client.deliverLocked, Response.wait and filterError; " +
-			"the solver decides the code equalities over the full int32 range. A second harness decides ErrorCode(c.Err()) == c for every int32 c and that WithData leaves its receiver unchanged for nil / marshalable / unmarshalable data.",
-		Bounds:      []string{"wrap depth <= 2 (thorough <= 3)", "message length <= 2 bytes (symbolic)", "all int32 codes (bit-vector)"},
-		Outside:     []string{"an ErrCoder reporting NoError for a non-nil error (excluded by assumption; the property exempts NoError)", "json.Marshal of arbitrary handler results (contract stub)"},
+		Explanation: "Handler errors are built from every constructor (Error with any int32 code / symbolic message / optional data token, Code.Err, Errorf, value- and pointer-receiver ErrCoder types, context sentinels, plain errors), multi-error nodes (errors.Join, two %w operands), an ErrCoder wrapping an *Error of another code, wrapped 0..2 (thorough 0..7) times with %w, and pushed through the real tasks.responses, jmessages.toJSON, parseJSON, Client.deliverLocked, Response.wait and filterError; " +
+			"the solver decides the code equalities over the full int32 range. A second harness decides ErrorCode(c.Err()) == c for every int32 c and that WithData leaves its receiver unchanged (code, message and the bytes of existing data, which sit in a buffer with spare capacity and are compared against a private copy) for nil / marshalable / unmarshalable data.",
+		Bounds:      []string{"wrap depth <= 2 (thorough <= 7)", "message length <= 2 bytes (thorough <= 8), every byte symbolic", "all int32 codes (bit-vector)"},
+		Outside:     []string{"an ErrCoder reporting NoError for a non-nil error (excluded by assumption; the property exempts NoError)", "an *Error whose Data is not valid JSON (Data is documented as JSON; the library then fails to encode the reply)", "json.Marshal of arbitrary handler results (contract stub)"},
 		Assumptions: append([]string{jsonAssumption, "errors.Is/As re-implemented in the engine following package errors (Is/As/Unwrap methods are the interpreted ones); fmt.Errorf keeps the %w operand reachable through Unwrap"}, commonAssumptions...),
 		Harnesses: []HarnessSpec{
 			{Dir: "jrpc2", Name: "Harness_C14_chain", Reach: []string{"delivered", "canceled-sentinel", "deadline-sentinel"}},
@@ -106,7 +108,7 @@ func registerMore() {
 		ID: "C17",
 		Explanation: "Method names are symbolic byte strings (every byte arbitrary, lengths by case split). handler.Map and ServiceMap (one and two levels) are executed with symbolic registered names and compared with a reference 'first dot' split; Server.assignLocked is executed with symbolic names, both DisableBuiltin settings and a spying assigner; " +
 			"setContext/invoke are executed to check InboundRequest(ctx) and ServerFromContext(ctx) in assigner and handler.",
-		Bounds:      []string{"method names <= 4 bytes (Map 3, ServiceMap 4, builtin gate 5; thorough 6/7), any byte values", "registered names <= 3 bytes, service names <= 2 bytes", "ServiceMap nesting depth <= 2"},
+		Bounds:      []string{"method names: Map <= 3 bytes (thorough 8), ServiceMap <= 4 (thorough 12), nested <= 5 (thorough 12), builtin gate <= 5 (thorough 16); every byte symbolic", "registered names <= 3 bytes (thorough 8), service names <= 2 bytes (thorough 4)", "ServiceMap nesting depth <= 2"},
 		Outside:     []string{"names longer than the bound", "rpc.serverInfo's metrics content (expvar is a stub)"},
 		Assumptions: append([]string{"sort.Strings is an engine intrinsic (insertion sort with symbolic comparisons); strings.SplitN/HasPrefix are rope-aware intrinsics"}, commonAssumptions...),
 		Harnesses: []HarnessSpec{
@@ -134,6 +136,20 @@ func registerMore() {
 
 var threadAssumption = "sync.Mutex/WaitGroup, channels, select and context are engine intrinsics; x/sync/semaphore and mds/queue are executed from source; scheduler: context switches at blocking operations only (preemption bound 0), at most `delays` deviations from the deterministic lowest-thread-first order"
 
+// sched: delay bounds per tier, and a preemption bound for the thorough tier
+// (a thread may also be switched out at a non-blocking synchronisation
+// operation - lock, unlock, channel operation, go, WaitGroup, cancel - at most
+// `tp` times per run; each such switch also counts as a delay).
+func sched(q, t, tp int) func(*Config, bool) {
+	return func(c *Config, th bool) {
+		c.Delays = q
+		if th {
+			c.Delays = t
+			c.Preempt = tp
+		}
+	}
+}
+
 func delays(q, t int) func(*Config, bool) {
 	return func(c *Config, th bool) {
 		c.Delays = q
@@ -151,7 +167,7 @@ func registerMore2() {
 			"(2) Wrap for each scheme x SetStrict x AllowArray on symbolic params (absent; object with a token and a symbolic string; with an unknown field; arrays of the right length, too short, too long; wrong field type): the function is called exactly once with the argument encoding/json decodes (after the array-to-field mapping), strict types and SetStrict reject unknown fields, or InvalidParams without a call; result and error pass through unchanged; no panic. " +
 			"(3) the positional field-name rules on a struct with a tagged embedded field, an unexported field and a json:\"-\" field. (4) Request.UnmarshalParams and arrayStub.translate directly.",
 		Bounds:      []string{"9 accepted + 8 rejected function shapes (programs are enumerated, params are symbolic)", "struct parameters with a RawMessage and a string field; params arrays of 1..3 elements", "string fields <= 1 symbolic byte"},
-		Outside:     []string{"parameter types beyond structs of RawMessage/string/int fields and *jrpc2.Request (scalars, slices, maps, embedded pointers)", "the real package reflect: the model in gosym/reflect.go stands in for it (Kind, NumIn/In/NumOut/Out, IsVariadic, Elem, Implements, NumField/Field, New, ValueOf, Interface, Elem, Call, StructOf, FuncOf, MakeFunc, PointerTo)"},
+		Outside:     []string{"parameter types beyond structs of RawMessage/string/int fields and *jrpc2.Request (scalars, slices, maps, embedded pointers)", "the real package reflect: the model in gosym/reflect.go stands in for it (Kind, NumIn/In/NumOut/Out, IsVariadic, Elem, Implements, NumField/Field, New, Zero, IsNil, ValueOf, Interface, Elem, Call, StructOf, FuncOf, MakeFunc, PointerTo)"},
 		Assumptions: append([]string{jsonAssumption, "reflect model over go/types (gosym/reflect.go); validated by the native replay of counterexamples (the C15 finding and the seeded change C15_a reproduce natively with the real reflect)", "json.Decoder with DisallowUnknownFields: fails iff an object key matches no field"}, commonAssumptions...),
 		Harnesses: []HarnessSpec{
 			{Dir: "jrpc2", Name: "Harness_C15_unmarshal", Reach: []string{"raw", "struct", "strict-ok", "strict-rejected", "wrapper-ok", "wrapper-rejected"}},
@@ -181,8 +197,8 @@ func registerMore2() {
 	addProp(&PropSpec{
 		ID: "C18",
 		Explanation: "Bridge.ServeHTTP is executed with a real server.Local behind it (server and client goroutines as engine threads) on one HTTP request: method in {POST, GET, PUT}, content type in {application/json, +charset=utf-8, +charset=latin1, text/plain, none}, body invalid JSON or 1..2 (thorough 3) members that are symbolically a call to an echo method (arbitrary string/number id, params token), a notification, a statically invalid member with a usable id, or one without. " +
-			"The recorded status and body are compared with the expected responses: caller's id text on every response, result equal to that call's own params, error objects for static errors, object vs array, 204 for notifications only, 405/415/error status without running a handler. A second harness runs two concurrent HTTP callers that use the same id for different calls.",
-		Bounds:      []string{"<= 2 members per request (thorough 3)", "2 concurrent callers, one call each", "delay bound 2"},
+			"The recorded status and body are compared with the expected responses: caller's id text on every response, result equal to that call's own params, error objects for static errors, object vs array, 204 for notifications only, 405/415/error status without running a handler. A second harness runs two concurrent HTTP callers that use the same id (arbitrary, or equal to the small integers the bridge uses internally) for different calls, one of them slow; the slow caller's record is a single call or a batch whose call is preceded by a notification.",
+		Bounds:      []string{"<= 2 members per request (thorough 3)", "2 concurrent callers, one call each (optionally preceded by one notification)", "delay bound 2 (thorough 3)"},
 		Outside:     []string{"real HTTP transport", "a ParseRequest hook", "ids of other JSON kinds (covered by ParseRequests in C13)"},
 		Assumptions: append([]string{jsonAssumption, threadAssumption, "net/http.Header from source; mime.ParseMediaType run natively on the (concrete) header value; http.ResponseWriter and request body are harness recorders; io.ReadAll returns the harness body"}, commonAssumptions...),
 		Harnesses: []HarnessSpec{
@@ -194,7 +210,7 @@ func registerMore2() {
 		ID: "C19",
 		Explanation: "(1) ParseQuery and ParseBasic on a request whose single query value is a symbolic string over the alphabet {\" ' + - 0 1 . e x _ n a i f} or one of the words true/false/null/inf/nan/infinity/-inf/+inf in lower, upper or title case: no panic, non-empty method equal to the trimmed path, parameters JSON-marshalable (checked by marshalling them through the json stub, where NaN/Inf fail), typing per the documented cascade (values strconv accepts beyond the documented grammar may be finite numbers: 'liberal typing', tolerated). " +
 			"(2) the path trimmed of slashes for every path of <= 4 symbolic bytes. (3) Getter.ServeHTTP over a real server.Local: 400 for an unparsable URL, 200 with the result, 404 for method-not-found (unknown method, or a handler error with that code), 500 otherwise; body always valid JSON. " +
-			"(4) A real jrpc2.Client over the real jhttp.Channel against a real Bridge through an in-process HTTPClient (Do calls Bridge.ServeHTTP; response bodies count Close): call, notification (204 short-circuit), batch with a notification and an unknown method, HTTP failure; results equal the direct connection's, after Client.Close every response body is closed and no engine thread of the library is left.",
+			"(4) A real jrpc2.Client over the real jhttp.Channel against a real Bridge through an in-process HTTPClient (Do calls Bridge.ServeHTTP; response bodies count Close): call, notification (204 short-circuit), batch with a notification and an unknown method, HTTP failure, an HTTP answer with any status in 100..599 other than 200/204, a request still in flight at Close; results equal the direct connection's, after Client.Close every response body is closed and no engine thread of the library is left.",
 		Bounds:      []string{"one query key; value <= 3 bytes over the 14-letter alphabet or a listed word", "path <= 4 bytes", "handler error code: any int32"},
 		Outside:     []string{"the real net/http client and transport (the HTTPClient is in-process; http.NewRequest is a stub that builds a minimal request without URL parsing)", "url parsing / percent-decoding (Request.ParseForm is a stub: the harness supplies Form)"},
 		Assumptions: append([]string{jsonAssumption, threadAssumption, "strconv.ParseInt/ParseFloat: bytes are case-split to representatives (digits into zero/non-zero) and the real strconv function is run on the representative; range errors with >= 3 exponent digits are nondeterministic", "base64.RawStdEncoding.DecodeString is run on the concretised text", "net/http.Header and url.Values executed from source; http.ResponseWriter is a harness recorder"}, commonAssumptions...),
@@ -207,9 +223,9 @@ func registerMore2() {
 	})
 	addProp(&PropSpec{
 		ID: "C20",
-		Explanation: "The real server.Loop, with real jrpc2 servers, is run as engine threads over a scripted in-memory Accepter: 0..2 connections; per connection the service's Assigner symbolically fails; the accepter then fails with a closing error, fails with another error, or blocks until the context ends; connections end by client close or context cancellation; scheduling decisions explored up to the delay bound. " +
+		Explanation: "The real server.Loop, with real jrpc2 servers, is run as engine threads over a scripted in-memory Accepter: 0..2 connections; per connection the service's Assigner symbolically fails; the accepter then fails with a closing error, fails with another error, or blocks until the context ends; connections end by client close or context cancellation; the context may also end while a service is inside its Assigner call; scheduling decisions explored up to the delay bound. " +
 			"Asserted: one newService per connection; Loop does not return while a started server runs; exactly one Finish per started server and none for a failed Assigner, whose connection must be closed; Loop's return value.",
-		Bounds:      []string{"<= 2 connections", "delay bound 2, context switches at blocking operations", "no RPC traffic on the connections (server behaviour is C01-C10)"},
+		Bounds:      []string{"<= 2 connections (thorough 3)", "delay bound 2 (thorough 3), context switches at blocking operations", "no RPC traffic on the connections (server behaviour is C01-C10)"},
 		Outside:     []string{"NetAccepter over a real net.Listener", "handler durations (no handlers run here)"},
 		Assumptions: append([]string{threadAssumption}, commonAssumptions...),
 		Harnesses:   []HarnessSpec{{Dir: "server", Name: "Harness_C20_loop", Reach: []string{"waits-for-servers", "finished", "assigner-failed", "accept-error", "done"}, Tweak: delays(2, 3)}},
@@ -217,8 +233,8 @@ func registerMore2() {
 	addProp(&PropSpec{
 		ID: "C11",
 		Explanation: "1..2 (thorough 3) records of 0..3 symbolic bytes each, plus optionally one record longer than the bufio buffer, are written by the real Send of the Split and Header framings (StrictHeader with and without content type, and the opthdr wrapper used by Header/LSP); the resulting byte stream is served by a reader with a symbolic chunking policy " +
-			"(all at once; uniform 1-, 2-, 3-byte reads; one cut at every position; final bytes with or without io.EOF) to the real bufio.Reader (executed from source, 16-byte buffer so that buffer-full continuation and refills occur) and the real Recv. Received records must equal the sent ones byte for byte and in order, then io.EOF, then errors. Send must refuse a record containing the split byte without writing.",
-		Bounds:      []string{"records: <= 2 x <= 3 symbolic bytes + optional 18/20-byte record", "bufio buffer 16 bytes (production: 4096; the code is parametric)", "chunking policies as listed"},
+			"(all at once; uniform 1-, 2-, 3-byte reads; one cut at every position; final bytes with or without io.EOF) to the real bufio.Reader (executed from source, 16-byte buffer so that buffer-full continuation and refills occur) and the real Recv. Received records must equal the sent ones byte for byte and in order, then io.EOF, then errors. Send must refuse a record containing the split byte without writing (split byte: any byte value, symbolic; round trip: split byte in {LF, 0xff, 0x00, 0x1e}).",
+		Bounds:      []string{"records: <= 2 (thorough 3) x <= 3 symbolic bytes + optional record of 15/16/17/18/32 bytes (split) or 20 bytes (header)", "bufio buffer 16 bytes (production: 4096; the code is parametric)", "chunking policies as listed"},
 		Outside:     []string{"RawJSON (boundaries found by encoding/json's streaming decoder: not encodable) and Direct (Go channels; exercised by the threaded harnesses only through the instrumented channel)", "multi-megabyte records and the hdr receive-buffer grow/shrink policy beyond 64 bytes"},
 		Assumptions: append([]string{"bufio.Reader, io.ReadFull, bytes helpers executed from source; bytes.Buffer and strings.Builder are engine intrinsics with the same observable behaviour"}, commonAssumptions...),
 		Harnesses: []HarnessSpec{
@@ -230,7 +246,7 @@ func registerMore2() {
 	addProp(&PropSpec{
 		ID: "C01",
 		Explanation: "One inbound message of 1..2 (thorough 1..3) valid requests, each symbolically a call (arbitrary distinct id) or a notification, is run through the real dispatchLocked closure (handler goroutines as engine threads) with symbolic handler outcomes: any result token, *Error with any int32 code, wrapped coded error, context error, unmarshalable result - also for notifications. " +
-			"The single outbound message is parsed back: one response per call, in request order, with that call's id and that handler's outcome; array iff the inbound was an array; nothing for notifications whatever their handlers return; sent after every handler exit (logical clock). C02's harness covers invalid members, C03's the started server.",
+			"The single outbound message is parsed back: one response per call, in request order, with that call's id and that handler's outcome; array iff the inbound was an array; nothing for notifications whatever their handlers return; sent after every handler exit (logical clock). C02's harness covers invalid members, C03's the started server, C09's filter step the hand-over of requests by a push-enabled server's reader.",
 		Bounds:      []string{"batch <= 3 members (quick: three-member batches only mix successful and unknown-method members; thorough: every outcome)", "Concurrency in {1,2}", "delay bound 2 (thorough 3)", "ids of one batch pairwise different"},
 		Outside:     []string{"several inbound messages in flight at once (C03 harness checks per-request run counts there)", "batches larger than the bound"},
 		Assumptions: append([]string{jsonAssumption, threadAssumption}, commonAssumptions...),
@@ -246,7 +262,7 @@ func registerMore2() {
 	addProp(&PropSpec{
 		ID:          "C04",
 		Explanation: clientExpl + "C04 clauses: a reply completes exactly the request whose id text it bears and nothing else; new ids differ from all ids in flight and stay below the counter; Batch returns responses in spec order without notifications, each with the reply for its own id; no inbound member panics (wait's id check included).",
-		Bounds:      []string{"<= 2 pending requests in the pre-state", "Batch of 1..3 specs", "id counter any value in [1, 2^40)", "delay bound 2"},
+		Bounds:      []string{"<= 2 pending requests in the pre-state", "Batch of 1..3 specs (thorough 4)", "id counter any value in [1, 2^40)", "delay bound 2 (thorough 3)"},
 		Outside:     []string{"reply ids that are textually different but numerically equal to a pending id (e.g. 01, 1.0) are 'other ids' (the client compares text)", "grouping of replies into arrays is a sequence of deliverLocked steps (covered by induction, not run as one record)"},
 		Assumptions: append([]string{jsonAssumption, threadAssumption, "strconv.FormatInt of a symbolic integer is an opaque decimal token, injective in the integer"}, commonAssumptions...),
 		Harnesses: []HarnessSpec{{Dir: "jrpc2", Name: "Harness_C04_step", Reach: []string{"delivered", "unknown-id", "sent", "notes-only", "send-failed"}, Tweak: delays(2, 3)},
@@ -254,8 +270,8 @@ func registerMore2() {
 	})
 	addProp(&PropSpec{
 		ID:          "C05",
-		Explanation: clientExpl + "C05 clauses: each response slot receives at most one completion (whoever removes the id from the pending set writes); the reply wins if delivered first, otherwise the context's own error; stop records the first cause, closes the channel once, ends every pending context and the callback context, OnStop once, OnCancel exactly for requests that ended without a reply, hooks outside the lock; a stopped client fails without transmitting; a failed Send registers nothing.",
-		Bounds:      []string{"<= 2 pending requests in the pre-state", "one step per run (histories by induction)", "delay bound 2"},
+		Explanation: clientExpl + "C05 clauses: each response slot receives at most one completion (whoever removes the id from the pending set writes); the reply wins if delivered first, otherwise the context's own error; stop records the first cause, closes the channel once, ends every pending context and the callback context, OnStop once, OnCancel exactly once for each request that ended without a reply (by its own context or by the stop) and never for an answered one, hooks outside the lock; a stopped client fails without transmitting; a failed Send registers nothing.",
+		Bounds:      []string{"<= 2 pending requests in the pre-state", "one step per run (histories by induction)", "delay bound 2 (thorough 3)"},
 		Outside:     []string{"'leaving no goroutine behind' beyond the threads of one step", "deadline (as opposed to cancel) contexts in the step harness: filterError's mapping of both codes is decided in C14"},
 		Assumptions: append([]string{jsonAssumption, threadAssumption}, commonAssumptions...),
 		Harnesses: []HarnessSpec{{Dir: "jrpc2", Name: "Harness_C04_step", Reach: []string{"cancelled", "deadline", "too-late-cancel", "stopped", "stopped-send", "send-failed"}, Tweak: delays(2, 3)},
@@ -264,9 +280,9 @@ func registerMore2() {
 	addProp(&PropSpec{
 		ID: "C10",
 		Explanation: "Every threaded and step harness hands the library an instrumented channel.Channel that asserts, inside each call and on every explored schedule: at most one Send in progress, at most one Recv in progress, no Send/Close overlap, Close exactly once per Start/NewClient, Send and Close only while the owner's mutex is held by the calling thread (the engine's mutex intrinsic knows the holder), " +
-			"and that every record passed to Send parses as one JSON object or a non-empty array of objects. C10's check runs the started-server harnesses (C03, C08), the push and client step harnesses (C09, C04) and a real NewClient with callback/notification handlers racing with Call/Notify/Close.",
+			"and that every record passed to Send parses as one JSON object or a non-empty array of objects. C10's check runs the started-server harnesses (C03, C08, and C02's envelope harness with records that are no request, padded records and undeliverable notifications), the push and client step harnesses (C09, C04) and a real NewClient with callback/notification handlers racing with Call/Notify/Close.",
 		Bounds:      []string{"the workloads of the listed harnesses", "delay bound 2; context switches at blocking operations"},
-		Outside:     []string{"workloads outside those harnesses; preemption inside a critical section is excluded by the lock-held assertion itself"},
+		Outside:     []string{"workloads outside those harnesses; preemption inside a critical section is excluded by the lock-held assertion itself", "a handler or OnCallback handler returning an *Error whose Data is not valid JSON (documented as JSON): the library then cannot encode its reply"},
 		Assumptions: append([]string{jsonAssumption, threadAssumption}, commonAssumptions...),
 		Harnesses: []HarnessSpec{
 			{Dir: "jrpc2", Name: "Harness_C10_client", Reach: []string{"closed"}},
@@ -279,9 +295,9 @@ func registerMore2() {
 	})
 	addProp(&PropSpec{
 		ID: "C06",
-		Explanation: "(1) ServerOptions.concurrency for every 64-bit Concurrency value and NumCPU >= 1, and the capacity of the semaphore NewServer builds (real x/sync/semaphore source). (2) A batch of 3 gated calls (+ optionally rpc.serverInfo) through the real dispatcher closure with limit in {1,2}: at quiescence exactly `limit` handlers run while the others wait (never more; work-conserving), a waiting call cancelled by CancelRequest never runs and is answered with the cancellation code, all slots are free at the end. C01/C03 harnesses additionally assert the limit.",
-		Bounds:      []string{"Concurrency: any int (options); limit in {1,2} (run)", "3 calls + optional built-in", "delay bound 2"},
-		Outside:     []string{"limits above 2 in the threaded run", "fairness among waiters"},
+		Explanation: "(1) ServerOptions.concurrency for every 64-bit Concurrency value and NumCPU >= 1, and the capacity of the semaphore NewServer builds (real x/sync/semaphore source). (2) A batch of 3 gated calls (+ optionally rpc.serverInfo) through the real dispatcher closure with limit in {1,2}: at quiescence exactly `limit` handlers run while the others wait (never more; work-conserving), a waiting call cancelled by CancelRequest never runs and is answered with the cancellation code, all slots are free at the end; optionally a gated notification ahead of the calls and a failing notification behind them. (3) A handler that waits inside Server.Callback for the reply to its own push still holds its slot: limit+1 handlers for limit slots, the push answered later. C01/C03 harnesses additionally assert the limit.",
+		Bounds:      []string{"Concurrency: any int (options); limit in {1,2} (run; thorough {1,2,3})", "3 calls (thorough 4) + optional built-in + optional notifications", "delay bound 2 (thorough 3)"},
+		Outside:     []string{"limits above 3 in the threaded run", "fairness among waiters"},
 		Assumptions: append([]string{jsonAssumption, threadAssumption}, commonAssumptions...),
 		Harnesses: []HarnessSpec{
 			{Dir: "jrpc2", Name: "Harness_C06_opts", Reach: []string{"explicit", "default"}},
@@ -291,9 +307,9 @@ func registerMore2() {
 	})
 	addProp(&PropSpec{
 		ID: "C08",
-		Explanation: "A real started Server over the instrumented channel: symbolic traffic (a gated call, 0..2 notifications optionally gated, optionally a malformed record: invalid JSON / empty batch / invalid id-less member), then one stop cause (Stop, peer EOF, Recv error), on channels whose Close does and does not unblock Recv, optionally a late record after Stop (valid call, notification, malformed), then WaitStatus, then restart on a fresh channel and one call. " +
-			"Any panic, deadlock or wrong status on any explored schedule is a violation.",
-		Bounds:      []string{"<= 1 call, <= 2 notifications, <= 1 malformed record before the stop, <= 1 late record", "one stop cause per run", "delay bound 2 (thorough 3), <= 10 threads"},
+		Explanation: "A real started Server over the instrumented channel: symbolic traffic (a gated call; 0..4 notifications, optionally gated so that some are still queued at the stop, with absent or null ids, as single objects or one-element batches; a batch of a gated notification followed by a call or by another notification; optionally a malformed record: invalid JSON / empty batch / invalid id-less member), then one stop cause (Stop, peer EOF, Recv error), on channels whose Close does and does not unblock Recv, optionally a late record after Stop (valid call, notification, malformed), then WaitStatus, then restart on a fresh channel and one call. " +
+			"WaitStatus returns only after every handler; every valid notification received before the stop runs exactly once, in arrival order, one after the other; no reservation and no library goroutine survives. Any panic, deadlock or wrong status on any explored schedule is a violation.",
+		Bounds:      []string{"<= 1 call, <= 4 notifications, <= 1 two-member batch, <= 1 malformed record before the stop, <= 1 late record", "one stop cause per run", "delay bound 2 (thorough 3), <= 12 threads"},
 		Outside:     []string{"a reader parked forever in a Recv that Close does not unblock and whose peer never closes (the channel's contract)", "Send errors (C05 covers the client side)"},
 		Assumptions: append([]string{jsonAssumption, threadAssumption}, commonAssumptions...),
 		Harnesses: []HarnessSpec{{Dir: "jrpc2", Name: "Harness_C08_run", Reach: []string{"restarted", "call-cancelled", "late-record"}, Tweak: delays(2, 3)},
@@ -302,7 +318,7 @@ func registerMore2() {
 	addProp(&PropSpec{
 		ID: "C09",
 		Explanation: "Inductive single-step verification of server push: from an arbitrary valid state (push on/off, running/stopped, 0..2 outstanding callbacks with distinct decimal ids below a symbolic counter) one real operation: Notify; Callback in a goroutine followed by its reply / context end / Stop; the reader's filterBatchLocked on a batch of 1..2 members (reply to an outstanding callback, late/duplicate/unsolicited reply with an arbitrary id, request); waitCallback after the context ended, before or after the reply.",
-		Bounds:      []string{"<= 2 outstanding callbacks", "batch <= 2", "callback counter any value in [1, 2^40)"},
+		Bounds:      []string{"<= 2 outstanding callbacks (thorough 4)", "batch <= 2 (thorough 4)", "callback counter any value in [1, 2^40)"},
 		Outside:     []string{"more than one callback awaited from inside handlers at once"},
 		Assumptions: append([]string{jsonAssumption, threadAssumption}, commonAssumptions...),
 		Harnesses: []HarnessSpec{{Dir: "jrpc2", Name: "Harness_C09_parked", Reach: []string{"parked-done"}, Tweak: delays(2, 3)}, {Dir: "jrpc2", Name: "Harness_C09_step", Reach: []string{"notify-unsupported", "notify-closed", "notified", "callback-unsupported", "callback-closed",
@@ -311,9 +327,9 @@ func registerMore2() {
 	addProp(&PropSpec{
 		ID: "C13",
 		Explanation: "(1) Arbitrary protocol messages (symbolic id, method bytes, params/result tokens, error with any code) through the real jmessage(s).toJSON and back through the real parser: equality of every field, version marker, no raw control byte written by the library (tokens carry an 'inner white space' attribute; json.Marshal compacts). " +
-			"(2) The real producers: Client.req/note with marshalParams, Server.pushReq, Response.MarshalJSON after SetID. (3) ParseRequests on generated members: one entry per member, flagged exactly when structurally invalid, with a server code; invalid JSON is a top-level error.",
-		Bounds:      []string{"method names <= 2 bytes (symbolic)", "1 message (thorough: batches of 2)", "member generator as in C02 (quick classes)"},
-		Outside:     []string{"validity / UTF-8 of json.Marshal's own output (encoding/json is a stub): unicode, quotes and HTML metacharacters in method names are handled inside it", "an independent validator (only the library's parser and the engine's JSON reader are used)"},
+			"(2) The real producers: Client.req/note with marshalParams, Server.pushReq, Response.MarshalJSON after SetID. (3) ParseRequests on generated members: one entry per member, flagged exactly when structurally invalid, with a server code; invalid JSON is a top-level error. (4) ParseRequests on a valid single request or batch of 1..2 calls surrounded by 0..2 symbolic white-space bytes on each side: same entries as without the padding.",
+		Bounds:      []string{"method names <= 2 bytes (symbolic)", "round trip: 1 message (thorough: batches of 2)", "ParseRequests: one generated member (thorough: all generator classes, as a single request and as a one-member batch)", "member generator as in C02"},
+		Outside:     []string{"validity / UTF-8 of json.Marshal's own output (encoding/json is a stub): unicode, quotes and HTML metacharacters in method names are handled inside it", "an independent validator (only the library's parser and the engine's JSON reader are used)", "ParseRequests on batches of two generated members (did not finish in 40 minutes; pairs of members are C02_batch's subject)"},
 		Assumptions: append([]string{jsonAssumption}, commonAssumptions...),
 		Harnesses: []HarnessSpec{
 			{Dir: "jrpc2", Name: "Harness_C13_roundtrip", Reach: []string{"roundtrip"}},
